@@ -2,7 +2,7 @@ SPECIFICATION Spec
 CONSTANTS
   MaxFields = 1
   FieldIds = {1, 2, 5, 15, 16, 17, 64, 70, 300, 8192, 32767}
-  GenTypes = {"BOOL","I8","I16","I32","I64","DOUBLE","BINARY","STRUCT","LIST","SET","MAP"}
+  GenTypes = {"BOOL","I8","I16","I32","I64","DOUBLE","BINARY","STRUCT","LIST","SET","MAP","ENUM"}
   MaxId = 2
   MaxMapEntries = 1
   Emit = FALSE
